@@ -42,7 +42,10 @@ def c03(tier, seed):
          "cmd": ["drive", "evaluator", "{seed}", q(tier, 300, 3000), "{trace}", "nonan"]},
         library_s2i(tier, "query"), repo_tests("query"), session_step(tier, "query"),
     ] + ([{"type": "apalache", "module": "AP_Evaluator", "inv": "Inv", "length": 6,
-           "what": "<= 4 breakpoints and every query arbitrary integers, histories of <= 6 queries"}] if tier == "thorough" else [])
+           "what": "<= 4 breakpoints and every query arbitrary integers, histories of <= 6 queries"},
+          {"type": "apalache", "module": "AP_EvaluatorInd", "inv": "IndInv", "length": 0, "what": "base case: Init => IndInv"},
+          {"type": "apalache", "module": "AP_EvaluatorInd", "init": "IndInit", "inv": "IndInv", "length": 1,
+           "what": "inductive step from an arbitrary IndInv state: histories of EVERY length, <= 4 arbitrary integer breakpoints"}] if tier == "thorough" else [])
 
 
 # ------------------------------------------------------------------------------------------------ C12
@@ -54,7 +57,10 @@ def c12(tier, seed):
          "cmd": ["drive", "evalv", "{seed}", q(tier, 400, 4000), "{trace}", "nonan"]},
         library_s2i(tier, "vnext"), session_step(tier, "vnext"),
     ] + ([{"type": "apalache", "module": "AP_EvalV", "inv": "Inv", "length": 6,
-           "what": "<= 4 breakpoints and every fed argument arbitrary integers in any order, batches of <= 6 items: piece = Select(running maximum)"}] if tier == "thorough" else [])
+           "what": "<= 4 breakpoints and every fed argument arbitrary integers in any order, batches of <= 6 items: piece = Select(running maximum)"},
+          {"type": "apalache", "module": "AP_EvalVInd", "inv": "IndInv", "length": 0, "what": "base case: Init => IndInv"},
+          {"type": "apalache", "module": "AP_EvalVInd", "init": "IndInit", "inv": "IndInv", "length": 1,
+           "what": "inductive step from an arbitrary IndInv state: batches of EVERY length, <= 4 arbitrary integer breakpoints"}] if tier == "thorough" else [])
 
 
 # ------------------------------------------------------------------------------------------------ C13
